@@ -154,8 +154,7 @@ def handleStages (j : Json) : Except String Json := do
                       match f with
                       | .order c => Json.mkObj [("kind", Json.str "order"), ("node", Json.num (JsonNumber.fromNat c))]
                       | .missing c => Json.mkObj [("kind", Json.str "missing"), ("node", Json.num (JsonNumber.fromNat c))]
-                      | .overwrite c => Json.mkObj [("kind", Json.str "overwrite"), ("node", Json.num (JsonNumber.fromNat c))]
-                      | .noTrainData v => Json.mkObj [("kind", Json.str "no_train_data"), ("node", Json.num (JsonNumber.fromNat v))])),
+                      | .overwrite c => Json.mkObj [("kind", Json.str "overwrite"), ("node", Json.num (JsonNumber.fromNat c))])),
                     ("all_trained", Json.bool ((nodes.filter g.offline).all fun v => s.trained.contains v))])
 
 end Drv
